@@ -87,6 +87,7 @@ func errCauseConds(ev *ErrVal) map[string]Node {
 	}
 	return errTagConds(ev)
 }
+
 type NilVal struct{}
 type StrVal struct {
 	Known bool
